@@ -34,6 +34,39 @@ CHECKS = {
    text="Every candidate list <=3 of 4 vSwitches x zones x free counts x policy (every shuffle outcome) x IgnoreZone against a reference selection; block/expiry histories on the virtual clock; GetOne||GetOne;Block||Block sharing one slice with the single-flight fill in flight.",
    note="Caller slice integrity is checked element-wise; 'most' accepts any candidate with the maximal free count.", ref="§5 C17"),
 }
+B = "explicit-state breadth-first search: a state is an event history; every transition replays the history on a fresh world (fake API server + simulated cloud) and invokes the REAL reconcile / RPC handlers; states deduplicated by a canonical form of CRs + cloud; invariants on every transition and a closure run from every state"
+CHECKS.update({
+ "C02": dict(cat="model_checking", engine="bfs", tech=B,
+   text="BFS to depth 4/5 from the empty cluster and a populated root over pod create / IP report / delete, reconcile (incl. reversed map order and failing status update), controller restart, clock and cloud drift; every transition runs the real ReconcileNode.Reconcile; invariants on the Node CR (one pod per address, one address per family per pod, no address under two interfaces, take-over honours the reported address).",
+   note="2-3 pods, <=2 adapters x <=3 addresses; fake API server (controller-runtime fake client), simulated OpenAPI; depth-bounded.", ref="§3, §5 C02"),
+ "C03": dict(cat="model_checking", engine="bfs", tech=B+"; both processes (node agent and control plane) run their real code on one API server",
+   text="BFS to depth 4/5 over kubelet events, the real daemon in CRD mode (ADD, DEL, report flush with/without write failure, syncDeletedPods, GC, restart) and the real ReconcileNode; transition invariants tie every unbind / Deleting mark / unassign to (no pod of that name) AND (teardown reported for that UID), and every report to a processed DEL or an absent pod; closure: deleted pods' addresses are reclaimed.",
+   note="pkg/utils.RuntimeFinalStatus tie-breaking for reports inside the same second is not explored (time source not instrumented there); one node.", ref="§5 C03"),
+ "C08": dict(cat="model_checking", engine="bfs", tech=B+"; one-shot fault menu on every cloud call",
+   text="BFS to depth 3/4 over pod events, reconciles, clock and a one-shot fault on the next Create/Attach/WaitFor/Assign/UnAssign/Detach/Delete/Describe (before effect, quota / exhaustion / throttling codes, timeout after effect); cloud call log checked against the node's limits on every transition; from every explored state a healthy closure run must converge (pods bound, idle within [min,max], no more cloud mutations, record == cloud after the next full sync).",
+   note="A Create whose reply is lost and that is never retried with the same parameters is outside the bound (idempotent replay by client token is modelled); EFLO node types not covered.", ref="§5 C08"),
+ "C10": dict(cat="model_checking", engine="bfs", tech=B,
+   text="BFS to depth 4/5 over pod lifecycle on two nodes, the two real controllers (pod, PodENI) observing in any order, GC loops, clock steps and one-shot cloud/API faults, x trunk x pod kinds; every (phase, phase') pair must be in the documented relation, records vanish only from Deleting, no Detach/Delete for a running pod's interface; closure: no interface without record, deleted elastic pods fully released.",
+   note="One known finding (fixed-IP pod deleted before bind completes goes ''/Binding -> Detaching), listed in known_findings.json. <=2 pods, 2 nodes.", ref="§5 C10"),
+ "C11": dict(cat="model_checking", engine="bfs", tech=B+"; bounded-exhaustive populations for the leak collector",
+   text="BFS from roots with bound fixed-IP pods with clock steps around 1 min / TTL / 10 min over 6 pod kinds (TTL, Never, mixed two-interface records in both orders): a fixed record is collected only when now-podLastSeen >= TTL and never with a Never allocation; a recreated pod binds the SAME interface and address. Leak collector: every population of <=3/4 interfaces over tag x age x reference x kind archetypes, delete set == reference set.",
+   note="Age boundaries are sampled at {-1 s, 0, +1 s, 1 h} around the threshold, not every instant.", ref="§5 C11"),
+ "C12": dict(cat="model_checking", engine="enum", tech="bounded-exhaustive enumeration of allocation records x CNI configurations through the real conversion chain (ToRPC, defaultForNetConf, parseSetupConf/TearDown/Check, getDatePath) against reference tables",
+   text="Every PodENI with 1-3 allocations x family x subnet size x address position x trunk status through RemoteIPResource.ToRPC (gateway = reserved address of the subnet, all-or-nothing); every interface-name/default-route list through defaultForNetConf (exactly one default route, primary present); every daemon reply x IP type x CNI configuration through the plugin parsers (datapath table, addresses/gateway/routes/limits recovered, setup and check agree).",
+   note="Records that the cloud cannot produce (address outside subnet / equal to gateway) are only run for crashes.", ref="§5 C12"),
+ "C13": dict(cat="model_checking", engine="enum", tech="bounded-exhaustive enumeration of SetupConfigs through all datapath generators against a reference FIB + exhaustive event histories of the REAL Setup/Teardown against the running kernel in private network namespaces",
+   text="Configuration level: family x default route x multi-network x extra routes x vlan strip x peer for every generator of the four datapaths (nothing for a disabled family, one default route per enabled family, reference FIB delivers to the pod link and out of the owning ENI via its gateway). Kernel level: all histories <=5/7 of setup/teardown/sandbox-gone over three pods (one re-using an address on another ENI) for v4/v6/dual through PolicyRoute, and <=4/6 through ExclusiveENI; the kernel's own route lookups, rule/route/link dumps after every event.",
+   note="This kernel has no ipvlan / vlan / dummy link types: the ipvlan and vlan datapaths are decided at configuration level only; ENIs are veth ends.", ref="§5 C13"),
+ "C18": dict(cat="model_checking", engine="enum", tech="bounded-exhaustive enumeration of pods x PodNetworking sets x cluster configuration through the real admission handler on a fake API server; the JSON patch is applied and parsed back",
+   text="Pods over host network / ignore label / containers / owner kind / 14 pod-networks shapes / 6 network-request shapes / annotations x PodNetworking sets x previous zone x cluster configuration; decision and patched pod compared with the reference predicate of the statement (untouched classes unchanged, conflicts denied, every admitted patched pod complete and consistent).",
+   note="Shapes are a curated finite alphabet, crossed exhaustively.", ref="§5 C18"),
+ "C19": dict(cat="model_checking", engine="enum", tech="bounded-exhaustive enumeration of instance-type limits x daemon configuration through the real limit parsing, pool configuration and Node CR publication",
+   text="Every instance description through getInstanceType/Limits; every limit vector x daemon configuration through getPoolConfig/checkInstance; every NodeCap x eni-config through the daemon-side nodeReconcile on a fake API server; oracles are the inequalities of the statement (non-negative, within quota, min<=max<=capacity, features off without support).",
+   note="Small integer ranges (adapters <=5, addresses <=4); controller-side annotation path (k8sAnno/patchNodeRes) not covered.", ref="§5 C19"),
+ "C20": dict(cat="model_checking", engine="enum", tech="bounded-exhaustive enumeration of JSON documents / plugin chains through the real merge functions against an RFC 7396 reference and a reference chain predicate",
+   text="Every base/overlay document pair over real Config keys x value shapes through MergeConfigAndUnmarshal (== RFC 7396 reference, identity and idempotence laws); every ordering of every plugin subset x kernel capabilities x datapath settings x recorded node capabilities through mergeConfigList in a private netns (valid JSON, order kept, normalised values, chainer iff eBPF datapath).",
+   note="Documents have <=2/3 keys per side; nodeCapabilitiesFile is redirected to a temp dir by a one-token const->var overlay patch.", ref="§5 C20"),
+})
 NA = {}
 def main():
     checks=[]
@@ -49,6 +82,7 @@ def main():
                  baseline_off_cmd=json.load(open("/root/.vp/BASELINE.json"))["cmd"], source_commits=[], add_only=True),
       engines=[dict(name="enum", path="/verif/harness/plain", serves_properties=[p for p,c in CHECKS.items() if c.get("engine","enum")=="enum"], kind_free_text="bounded-exhaustive enumeration of inputs/configurations/histories through the real functions against reference models, in-package harnesses injected by -overlay"),
                dict(name="weave", path="/verif/cmd/instr + /verif/vpkg/rt + /verif/harness/weave", serves_properties=[p for p,c in CHECKS.items() if c.get("engine")=="weave"], kind_free_text="source-to-source instrumenter + deterministic cooperative runtime + stateless DFS explorer (delay/preemption, map-order, fault, timer deviations; happens-before fingerprint pruning) running the real terway goroutines"),
+               dict(name="bfs", path="/verif/vpkg/bfs + /verif/vpkg/simcloud + /verif/harness/weave/{daemon/c03,pkg/controller/**}", serves_properties=[p for p,c in CHECKS.items() if c.get("engine")=="bfs"], kind_free_text="explicit-state breadth-first search over event histories replayed through the real controllers / daemon handlers on a fake API server and a simulated cloud; canonical-state deduplication; closure runs from every state"),
                dict(name="crash", path="/verif/harness/weave/daemon/c05_test.go + /verif/harness/plain/pkg/storage/c05_test.go", serves_properties=["C05"], kind_free_text="crash-point and torn-write enumeration with recovery through the real start-up path")],
       checks=checks, not_applicable=na,
       notes="vcheck exit codes: 0 held, 1 VIOLATION, 2 harness error. Known findings: /verif/known_findings.json.")
